@@ -714,3 +714,30 @@ theorem packetFor_eq_spec (norm : Str → Str) (d : Db) (x : LoopRow) (pkt : Lis
   simp only [Function.comp, this]
 
 end CifModel.Store
+
+namespace CifModel.Store
+
+/-- the id the next container gets is unused: a consequence of the invariant (foreign keys + ids below the sequence) -/
+theorem Inv.idFresh {d : Db} (h : Inv d) : IdFresh d := by
+  have hlt : ∀ id, d.hasContainer id = true → id < d.nextId := by
+    intro id hid
+    obtain ⟨r, hr, hre⟩ := (hasContainer_iff d id).mp hid
+    rw [← hre]; exact h.ext.idsBelow r hr
+  refine ⟨?_, ?_, ?_⟩
+  · intro f hf he; have := hlt _ (h.tree.frameFK f hf).2; omega
+  · intro l hl he; have := hlt _ (h.loopFK l hl); omega
+  · intro b hb he; have := hlt _ (h.tree.blockFK b hb); omega
+
+end CifModel.Store
+
+namespace CifModel.Store
+
+theorem rowsBelowB_sound (d : Db) (h : d.rowsBelowB = true) (cid ln : Nat) : RowsBelow d cid ln := by
+  intro r hr hc hl v hv hvc ha
+  unfold Db.rowsBelowB at h
+  have := List.all_eq_true.mp (List.all_eq_true.mp h r hr) v hv
+  rw [hc, hl] at this
+  simp [hvc, ha] at this
+  exact this
+
+end CifModel.Store
